@@ -84,9 +84,14 @@ InterpEff == LET ns == Len(InterpVoices[1].streams) IN
   [dur |-> WTab[hist.wd],
    par |-> [s \in 1..ns |-> WTab[((hist.wp + s - 2) % Len(WTab)) + 1]],      \* a different vector per stream
    gv  |-> [s \in 1..ns |-> WTab[((hist.wg + s - 1) % Len(WTab)) + 1]]]
+\* non-vacuity: the voices of a set differ in every model (otherwise the weights of that quantity would be unobservable)
+SiblingsDiffer(vs) == \A i \in 2..Len(vs) :
+   /\ vs[i].dur.pdfs # vs[1].dur.pdfs
+   /\ \A s \in 1..Len(vs[1].streams) : /\ (vs[i].streams[s].model.pdfs # vs[1].streams[s].model.pdfs \/ vs[1].streams[s].name = "LPF")
+                                        /\ (vs[1].streams[s].usegv => vs[i].streams[s].gv.pdfs # vs[1].streams[s].gv.pdfs)
 InterpEmit == st = "done" =>
   LET vs == InterpVoices  eff == InterpEff  v1 == vs[1]  ns == Len(v1.streams) IN
-  SetOK(vs) /\
+  SetOK(vs) /\ SiblingsDiffer(vs) /\
   PrintT(<<"CASE", ToJson([kind |-> "interp", voices |-> [i \in 1..NVoices |-> Render(vs[i])], eff |-> eff,
       labels |-> InterpLabels, nstate |-> v1.nstate,
       dur |-> [li \in 1..Len(InterpLabels) |-> DurParams(vs, eff, InterpLabels[li])],
